@@ -106,7 +106,7 @@ func probeHandler(w http.ResponseWriter, r *http.Request) {
 		return
 	}
 	if offer == "" {
-		log.Printf("Error processing session description: %s", err.Error())
+		log.Printf("Error processing session description: no offer")
 		w.WriteHeader(http.StatusBadRequest)
 		return
 	}
